@@ -240,7 +240,7 @@ def _mk_diff_step(vector):
 def _mk_adv_flux(K, A, shape, real_t, rng):
     d = len(shape)
     inv_dx = real_t(rng.uniform(0.5, 20.0))
-    kw = dict(advection_flux=A.inout(shape), field=A.inp(shape), velocity=A.inp((d,) + shape), inv_dx=inv_dx)
+    kw = dict(advection_flux=A.inout(shape), field=A.inp(shape), velocity=A.inp((d,) + shape, kind="vel_ties" if rng.random() < 0.5 else "noise"), inv_dx=inv_dx)
     return Case(K, kw, dict(advection_flux="inout", field="in", velocity="in"),
                 lambda i: {"advection_flux": (i["advection_flux"] + float(inv_dx) * ops.eno3_flux_divergence(i["field"], i["velocity"]), m_int(shape, 2))},
                 smooth=("field", "advection_flux"))
@@ -251,12 +251,12 @@ def _mk_adv_step(vector):
         d = len(shape)
         c = real_t(rng.uniform(0.01, 0.5))
         if not vector:
-            kw = dict(field=A.inout(shape), advection_flux=A.scratch(shape), velocity=A.inp((d,) + shape), dt_by_dx=c)
+            kw = dict(field=A.inout(shape), advection_flux=A.scratch(shape), velocity=A.inp((d,) + shape, kind="vel_ties" if rng.random() < 0.5 else "noise"), dt_by_dx=c)
             return Case(K, kw, dict(field="inout", advection_flux="scratch", velocity="in"),
                         lambda i: {"field": (i["field"] - float(c) * ops.eno3_flux_divergence(i["field"], i["velocity"]), m_int(shape, 2))},
                         value_compare=("field",), smooth=("field",))
         s = (3,) + shape
-        kw = dict(vector_field=A.inout(s), advection_flux=A.scratch(shape), velocity=A.inp(s), dt_by_dx=c)
+        kw = dict(vector_field=A.inout(s), advection_flux=A.scratch(shape), velocity=A.inp(s, kind="vel_ties" if rng.random() < 0.5 else "noise"), dt_by_dx=c)
         return Case(K, kw, dict(vector_field="inout", advection_flux="scratch", velocity="in"),
                     lambda i: {"vector_field": (np.stack([i["vector_field"][k] - float(c) * ops.eno3_flux_divergence(i["vector_field"][k], i["velocity"]) for k in range(3)]), m_int(s, 2, 1))},
                     value_compare=("vector_field",), smooth=("vector_field",))
